@@ -156,9 +156,14 @@ LBegin(o, k, m, g) == /\ phase = "idle" /\ ~lazy /\ (nh > 0 => g)
                       /\ lazy' = TRUE /\ dag' = g /\ nev' = 0 /\ count' = Zero(d) /\ val' = NoVal /\ graph' = NoGraph
                       /\ UNCHANGED <<memo, nh>>
 
-(* the call returns a deferred handle.  No Call step is enabled in phase "building": no user function runs *)
+(* the call returns a deferred handle.  No Call step is enabled in phase "building": no user function runs.     *)
+(* Don't-care: inside a construct_dag() block that already served a handle (nh > 0) results may come from the  *)
+(* block's cache, and for those the code documents that it cannot tell which keywords were used ("result was   *)
+(* from cache, so we don't know which parameters were used", Pipeline.run): a surplus keyword may then be       *)
+(* accepted silently instead of refused; the handle's value is still Eval, which ignores keywords it does not  *)
+(* consult.                                                                                                     *)
 Build == /\ lazy /\ phase = "building"
-         /\ Defined(d, kw, out) /\ StrictSurplus(d, kw, out) = {} /\ ~PHas(kw, out)
+         /\ Defined(d, kw, out) /\ (nh = 0 => StrictSurplus(d, kw, out) = {}) /\ ~PHas(kw, out)
          /\ phase' = "built"
          /\ UNCHANGED <<d, out, kw, mode, done, lvars>>
 (* argument errors are detected while building, as in eager mode, and equally without running anything *)
